@@ -19,16 +19,11 @@ type VerifController = DefaultFanController
 // and derives the distinct targets with the real updateDistinctPwmValues.
 func VerifNew(p persistence.Persistence, fan fans.Fan, curve curves.SpeedCurve, loop control_loop.ControlLoop,
 	updateRate time.Duration, pwmMap map[int]int, setMap bool) *DefaultFanController {
-	c := &DefaultFanController{
-		persistence:                 p,
-		fan:                         fan,
-		curve:                       curve,
-		updateRate:                  updateRate,
-		pwmValuesWithDistinctTarget: []int{},
-		pwmMap:                      nil,
-		controlLoop:                 loop,
-		minPwmOffset:                0,
-	}
+	// through the real constructor (it looks the curve up by the fan's curve id), so that the shim names no field of the
+	// controller it does not need
+	curves.RegisterSpeedCurve(curve)
+	c := NewFanController(p, fan, loop, updateRate).(*DefaultFanController)
+	c.curve = curve
 	if setMap {
 		c.pwmMap = pwmMap
 		c.updateDistinctPwmValues()
